@@ -322,7 +322,7 @@ class Job:
 
     def build_native_real(self):
         exe = os.path.join(self.dir, 'native_real')
-        inc = ['-I', os.path.join(V, 'rt'), '-I', os.path.join(V, 'shadow'), '-I', os.path.join(V, 'harness', 'common'), '-I', os.path.join(V, 'env'), '-I', SRC, '-I', self.hdir]
+        inc = ['-I', os.path.join(V, 'rt'), '-I', os.path.join(V, 'shadow'), '-I', os.path.join(V, 'harness', 'common'), '-I', os.path.join(V, 'env'), '-I', SRC, '-I', self.hdir] + self.h.get('real_inc', [])
         if self.h.get('no_shadow'):
             inc = drop_inc(inc, os.path.join(V, 'shadow'))
         objs, procs = [], []
@@ -357,7 +357,7 @@ class Job:
                 raise Broken('gcc (real build) failed on %s: %s' % (s, e[-2000:]))
             cobjs.append(o)
         link = ['g++', '-fsanitize=address,undefined', '-Wl,--no-demangle'] + objs + cobjs
-        rc, o, e, _ = sh(link + ['-lm', '-lpthread', '-o', exe])
+        rc, o, e, _ = sh(link + self.h.get('real_libs', []) + ['-lm', '-lpthread', '-o', exe])
         if rc:
             # functions the IR build dropped as unreachable (globaldce) are still referenced by the object files: give them
             # aborting bodies so that reaching one is loud, and relink
@@ -373,7 +373,7 @@ class Job:
                 for k, sy in enumerate(syms):
                     f.write('.Lname%d: .string "%s"\n' % (k, sy))
                 f.write('.section .note.GNU-stack,"",@progbits\n')
-            rc, o, e, _ = sh(link + [stub, '-lm', '-lpthread', '-o', exe])
+            rc, o, e, _ = sh(link + [stub] + self.h.get('real_libs', []) + ['-lm', '-lpthread', '-o', exe])
             if rc:
                 raise Broken('link (real build) failed: ' + e[-3000:])
         return exe
